@@ -1070,5 +1070,41 @@ def r17_19(ctx):
     return r
 
 
+def r17_20(ctx):
+    """'the connection reports a terminal state and a disconnect reason': the states and the reason are tokio watch channels
+    owned by PeerConnectionInner. `watch::Sender::send` stores NOTHING when no receiver exists - so every channel that is
+    written with plain `send` needs a receiver kept alive next to its sender (the `_xxx_rx` fields), or the value published
+    by close() is lost whenever the application holds no subscription. Decided: for every watch::Sender<T> field of
+    PeerConnectionInner on which `send` is called anywhere, the struct also has a watch::Receiver<T> field."""
+    r = RuleResult("R17.20", "K6", "every watch channel written with send() keeps a receiver alive")
+    adt = ctx.facts.adts.get("peer_connection::PeerConnectionInner")
+    if not adt:
+        raise core.CheckerError("R17.20: PeerConnectionInner not found")
+    fields = adt["variants"][0]["fields"]
+    senders = {f["n"]: f["ty"] for f in fields if "watch::Sender<" in f["ty"]}
+    receivers = [f["ty"] for f in fields if "watch::Receiver<" in f["ty"]]
+    r.need("watch::Sender fields of PeerConnectionInner", len(senders), 5)
+    used = {}
+    for nb in ctx.facts.all_bodies():
+        if "::tests::" in nb.name or "peer_connection::" not in nb.name:
+            continue
+        for bi, t, p in nb.calls():
+            if p and "watch::Sender" in p and p.endswith("::send") and t["a"]:
+                a0 = nb.term_operand(t["a"][0])
+                for f in senders:
+                    if mir.has_field(a0, f):
+                        used.setdefault(f, nb.where(bi))
+    for f, where in sorted(used.items()):
+        inner = senders[f].split("watch::Sender<", 1)[1].rsplit(">", 1)[0]
+        if any(rt.split("watch::Receiver<", 1)[1].rsplit(">", 1)[0] == inner for rt in receivers):
+            r.ok({"channel": f, "send() at": where, "receiver kept": True})
+        else:
+            r.violate("peer_connection::PeerConnectionInner", "watch:no-kept-receiver:%s" % f, where,
+                      "`%s.send(..)` is used (%s) but PeerConnectionInner keeps no watch::Receiver<%s>: with no subscriber the value is dropped - "
+                      "close() reports no %s" % (f, where, inner, f.replace("_", " ")))
+    r.need("watch channels written with send()", len(used), 2)
+    return r
+
+
 def run(ctx):
-    return [r17_1(ctx), r17_2(ctx), r17_3(ctx), r17_4(ctx), r17_5(ctx), r17_6(ctx), r17_7(ctx), r17_8(ctx), r17_9(ctx), r17_10(ctx), r17_11(ctx), r17_12(ctx), r17_13(ctx), r17_14(ctx), r17_15(ctx), r17_16(ctx), r17_17(ctx), r17_18(ctx), r17_19(ctx)]
+    return [r17_1(ctx), r17_2(ctx), r17_3(ctx), r17_4(ctx), r17_5(ctx), r17_6(ctx), r17_7(ctx), r17_8(ctx), r17_9(ctx), r17_10(ctx), r17_11(ctx), r17_12(ctx), r17_13(ctx), r17_14(ctx), r17_15(ctx), r17_16(ctx), r17_17(ctx), r17_18(ctx), r17_19(ctx), r17_20(ctx)]
